@@ -61,8 +61,19 @@ pub fn impl_class_set(scanner: &scnr::Scanner, id: usize) -> Result<Arc<CharSet>
         }
     }
     let set = Arc::new(set);
-    set_cache().lock().unwrap().insert(key, set.clone());
+    cache_insert(key, set.clone());
     Ok(set)
+}
+
+/// The cache is bounded (each entry is 136 KiB): when full it is emptied; entries are recomputed
+/// on demand.
+fn cache_insert(key: String, set: Arc<CharSet>) {
+    const MAX_ENTRIES: usize = 3000;
+    let mut c = set_cache().lock().unwrap();
+    if c.len() >= MAX_ENTRIES {
+        c.clear();
+    }
+    c.insert(key, set);
 }
 
 /// The set an IR leaf denotes (reference side), cached by its syntax.
@@ -73,7 +84,7 @@ pub fn leaf_set(leaf: &Re) -> Arc<CharSet> {
     }
     let set = set_of_leaf(leaf);
     let set = Arc::new(set);
-    set_cache().lock().unwrap().insert(key, set.clone());
+    cache_insert(key, set.clone());
     set
 }
 
